@@ -367,7 +367,7 @@ func (s *sys) applyVote(args []string) (string, bool) {
 		idxs = []int{i}
 	}
 	// Honest validators never equivocate; corrupted variants do not count as their vote.
-	if variant == "" || variant == "mix" || variant == "dupid" || variant == "badpkh" {
+	if variant == "" || variant == "mix" || variant == "dupid" || variant == "badpkh" || variant == "andnil3" {
 		var may []int
 		for _, i := range idxs {
 			if w.honestMay(kind, h, r, i, target) {
@@ -488,15 +488,23 @@ func (s *sys) applyVote(args []string) (string, bool) {
 	case "dupid":
 		// The same valid signature listed twice.
 		sigs = append(sigs, sigs[0])
-	case "emptymap":
+	case "emptymap", "andnil3":
 	default:
 		panic("unknown vote variant " + variant)
 	}
 	proofs := map[string][]gcrypto.SparseSignature{target: sigs}
+	if variant == "andnil3" && target != "" {
+		// One message with two targets: the votes above plus the Byzantine validator's nil vote (it may sign anything).
+		proofs[""] = []gcrypto.SparseSignature{w.voteSig(kind, h, r, "", byzIdx)}
+		s.noteDelivered(kind, h, r, "", byzIdx)
+		if kind == 'c' {
+			w.noteHonestPrecommit(h, r, "", byzIdx)
+		}
+	}
 	if variant == "emptymap" {
 		proofs = map[string][]gcrypto.SparseSignature{}
 	}
-	if variant == "" || variant == "mix" || variant == "dupid" || variant == "badpkh" {
+	if variant == "" || variant == "mix" || variant == "dupid" || variant == "badpkh" || variant == "andnil3" {
 		for _, i := range idxs {
 			s.noteDelivered(kind, h, r, target, i)
 			if kind == 'c' && variant != "badpkh" {
